@@ -287,3 +287,24 @@ pub fn to_cerr(e: StdError) -> CErr {
         None => CErr::Std(e),
     }
 }
+
+pub fn wasm_msg_of(s: &SubSpec) -> WasmMsg {
+    match cosmos_msg_of::<sylvia::cw_std::Empty>(s) {
+        CosmosMsg::Wasm(w) => w,
+        other => panic!("SubSpec {other:?} is not a wasm message"),
+    }
+}
+
+pub fn reply_extra(gas_used: u64, events: &[Event], msg_responses: &[sylvia::cw_std::MsgResponse]) -> Value {
+    json!({"gas_used": gas_used, "events": events, "msg_responses": msg_responses})
+}
+
+pub fn inst_json(d: &sylvia::cw_utils::MsgInstantiateContractResponse) -> Value {
+    json!({"contract_address": d.contract_address, "data": d.data})
+}
+pub fn inst_opt_json(d: &Option<sylvia::cw_utils::MsgInstantiateContractResponse>) -> Value {
+    match d {
+        Some(d) => inst_json(d),
+        None => Value::Null,
+    }
+}
